@@ -99,6 +99,7 @@ class P(Prop):
         (M, "TV.C05.temporal_count", "T1: for a chronological list of instants __resampleTemporal returns, without raising, exactly one observation per instant in (tini, tfin], in order, stamped with it"),
         (M, "TV.C05.temporal_count_any_order", "T1': on a track whose stamps never decrease, instants requested in ANY order (repetitions included) each get exactly one observation when in (tini, tfin], in request order, stamped with the instant (fix ee0419b)"),
         (M, "TV.C05.temporal_bracket", "T2: with strictly increasing stamps the sample at t uses the unique leg r>=1 with T[r-1] < t <= T[r] (positive denominator) and is P[r-1] + ((t-T[r-1])/(T[r]-T[r-1]))(P[r]-P[r-1]) in x, y, z"),
+        (M, "TV.C05.temporal_repeated_stamps", "T2': stamps that never decrease but may repeat, any track length: the sample at t in (tini, tfin] is interpolated between two fixes CONSECUTIVE in the order of the track, P[r-1] and P[r], the unique leg with T[r-1] < t <= T[r] (never of zero duration); every fix before P[r] is stamped < t and every fix from P[r] on is stamped > T[r-1] (the leg ends at the first fix stamped >= t and starts at the last fix carrying T[r-1]: the track is never re-ordered); an instant that is a stamp of the track gets the position of the first fix carrying it"),
         (M, "TV.C05.temporal_number_step", "T1/T2 for a numeric step d>0: prepareTimeSampling + the loop return exactly the samples at tini+d, ..., tini+Kd with tini+Kd <= tfin < tini+(K+1)d"),
         (M, "TV.C05.temporal_outside", "D1: requested instants all outside (tini, tfin] yield no observation and no exception, for every non-empty track, any order"),
         (M, "TV.C05.temporal_degenerate", "D2: empty list / reference track without observation / argument of another type return the empty track; a reference Track is read through its stamps only (one observation = the one-instant list); a one-fix track answers every list with the empty track"),
@@ -109,6 +110,8 @@ class P(Prop):
         (M, "TV.C05.spatial_on_polyline", "T3: the sample at abscissa s in (0,L] lies on the unique leg r with S[r-1] < s <= S[r], of positive length, at fraction f in (0,1], at curvilinear abscissa s; x, y, z, t interpolated with f"),
         (M, "TV.C05.spatial_pause", "T3d: pauses (repeated positions): the leg used ends at the FIRST fix at or beyond s (a sample on a pause is the fix where the pause begins, with its z and t) and starts at the LAST fix of its start abscissa (a sample beyond a pause is interpolated in z and t from the fix that ends the pause); never a zero-length leg"),
         (M, "TV.C05.spatial_time_monotone", "T4: with non-decreasing stamps the timestamps of the spatially resampled track never decrease"),
+        (M, "TV.C05.spatial_equal_stamp_leg", "T3e: a spatial sample taken on a leg whose two fixes carry the same timestamp is stamped with exactly that timestamp (exact arithmetic; in floats wbwd*t + wfwd*t can be one ulp below t: finding spatial-equal-stamp-leg-ms-decrease)"),
+        (M, "TV.C05.spatial_stamps_monotone", "S2: spatial mode, stamps that never decrease (repeats allowed), not before 1970: the outputs carry the calendar stamps readUnixMs(m) with m = floor(1000 t) the millisecond of the interpolated time; these m never decrease along the output and each stamp is well formed and reads back as m ms: the stamps actually carried never decrease (exact arithmetic)"),
         (M, "TV.C05.spatial_legs", "T3b: the accumulated leg lengths are the non-negative 2D distances (square = dx^2+dy^2) for any sqrt meeting math.sqrt's contract"),
         (M, "TV.C05.spatial_distance_along_leg", "T3c: the point at fraction f of a leg is at planimetric distance f|ab| from its start, so with T3 the sample k lies at distance k ds along the original 2D polyline"),
         (M, "TV.C05.frontend", "Track.resample: feature table reset to empty (the dispatcher interpolation.resample alone leaves it as it was); explicit delta = the private routine (spatial + non-numeric step = TypeError); delta=None = the call with step (1+1e-8) D/npts"),
@@ -121,7 +124,7 @@ class P(Prop):
     partial = []
     open_statements = [
         "IEEE rounding is outside the theorems (ordered field): float overshoot int(L/ds)*ds > L (repaired by the fix commits 6fb91a5 + 3031a33: bounded scan and abscissa clamped to L, both mirrored by the model and proved to be no-ops in exact arithmetic; their effect in floats is covered by the Float-model correspondence and the oracle), loss of the (1+1e-8) guard on epoch-scale stamps and the truncation int((t - int(t))*1000) of the millisecond field to m-1 for some whole-millisecond instants are only sampled by the transfer check (1 ms tolerance)",
-        "spatial mode: the stamp of an output is readUnixTime of an interpolated, generally non-integral number of milliseconds; the model stamps with floor(1000 t) by definition (stampOf), no theorem beyond T3/T4 on t itself",
+        "spatial mode: the stamp of an output is readUnixTime of an interpolated, generally non-integral number of milliseconds; the model stamps with floor(1000 t) by definition (stampOf); S2 proves that these stamps never decrease and read back as floor(1000 t) ms in exact arithmetic; in floats the truncation int((t - int(t))*1000) is only sampled (1 ms tolerance), and on a leg of positive length travelled in no time (two fixes sharing a stamp t) wbwd*t + wfwd*t can fall one ulp below t, so that consecutive output stamps read m, m-1, m (finding spatial-equal-stamp-leg-ms-decrease, not repaired)",
     ]
     modelled = ("tracklib/algo/interpolation.py prepareTimeSampling (number / list / Track / other argument), __resampleTemporal, __resampleSpatial, "
                 "the ALGO_LINEAR branches of the dispatcher resample() (including that it leaves the feature table untouched), sample(), synchronize() "
@@ -134,7 +137,11 @@ class P(Prop):
                "C05: for synchronize() the oracle holds each track against the property for the request that track actually received, recorded at the door of "
                "Track.resample (which instants synchronize chooses is checked by the correspondence with the model, theorem synchronize_spec)"]
     rule = ("ENU tracks of 1..8 fixes on an integer/dyadic lattice (3-4-5 and axis-parallel legs, repeated positions), strictly increasing "
-            "irregular timestamps on a 1/8 s grid from 1970 on (year ends included); steps as number (int or float, dividing or not), list of instants "
+            "irregular timestamps on a 1/8 s grid from 1970 on (year ends included); LONG tracks of 17..200 fixes (sizes around 16/17, 32/33, 64/65, 128/129 and random) whose "
+            "consecutive fixes share a timestamp (one pair at every position, a quarter of the pairs, every stamp doubled = 2 Hz on a 1 s clock, runs of up to 5) and/or a position "
+            "(independently, exactly the same pairs = doubled records, or only the others), lattice and float, requested at one instant inside EVERY leg (list / reference track, "
+            "in order or shuffled; Track.resample, interpolation.resample, //, sample, synchronize, collection //), by numeric step, npts, and in spatial mode; the oracle "
+            "interpolates in the ORIGINAL order of the fixes (stamps that never decrease are inside the oracle; at a repeated stamp any value of the jump is admissible); steps as number (int or float, dividing or not), list of instants "
             "(before/at/after the ends, duplicates, any order), reference track, npts/factor; temporal and spatial; degenerate requests (empty list, empty / one-observation / "
             "unsorted reference track, all instants outside the range, one instant repeated, the track itself as reference, its own stamps, a tuple, a list in spatial mode, "
             "delta together with npts/factor, a step >= the whole range); every entry point that delegates to linear resampling (Track.resample, interpolation.resample, "
@@ -178,6 +185,7 @@ class P(Prop):
                 "histories: on one 5-fix lattice track, abs_curv cached (or a user feature abs_curv / ds) followed by every single edit of {scale 1/2,2,3; remove i; setx i; sety i} x ds in {1, 5/2} spatial and step 3/2 temporal",
                 "spatial: every sequence of 2..3 legs from {0, 2 (axis), 5 (3-4-5), 10 (6-8-10)} x ds in {1/2,1,2,5/2,5,7,20}",
                 "degenerate requests: on the stamps (0,2,3,5) every reference of 0, 1 or 2 instants of the half-second grid -1..6 s x {list (with and without npts), reference Track, track // ref, interpolation.resample with a feature table}",
+                "long tracks: zigzag 1 Hz tracks of 17, 20, 30 fixes (thorough: 12 sizes up to 100) in which fixes d-1 and d share a timestamp, for EVERY d (a third of them also as an identical doubled record), requested a quarter of a second inside every leg and at the repeated stamp; 2 Hz tracks with a 1 s clock of every size 17..40 (thorough: ..100) requested at every half second (list, track // ref, step 1/4 s)",
                 "synchronize: every pair of stamp sets of 2..3 whole seconds from {0..5} (all ways two time ranges can meet: disjoint, touching, one fix or none inside the common range, shared stamps, identical)"]
 
     def mk_case(self, kind, pts, mode, delta=None, npts=None, factor=1, feat=False, via=None, others=None):
